@@ -32,6 +32,7 @@ type c10Spec struct {
 	Fmt    string    `json:"fmt"`
 	Other  int       `json:"other,omitempty"` // 0 none, 1 other field's events before, 2 between, 3 after ours
 	Factor float64   `json:"factor,omitempty"` // global fertilisation factor (%)
+	Zero   bool      `json:"zero,omitempty"`   // global fertilisation factor 0 % (unfertilised scenario)
 }
 
 const c10Len = 24 // simulated days: offsets 0..23
@@ -120,6 +121,11 @@ func c10Specs(tier string, seed int) []c10Spec {
 				out = append(out, c10Spec{What: "irr-many", Window: "start", Fmt: "DateDElong", Other: n, Factor: float64(pre)})
 			}
 		}
+	}
+	// the unfertilised scenario: factor 0 % (every amount becomes 0, timing unchanged), also 1 % and 300 %
+	out = append(out, c10Spec{What: "fert-types", Window: "start", Fmt: "DateDElong", Zero: true}, c10Spec{What: "fert-types", Window: "start", Fmt: "DateDElong", Factor: 1}, c10Spec{What: "fert-types", Window: "start", Fmt: "DateDElong", Factor: 300})
+	for _, f := range fmts {
+		out = append(out, c10Spec{What: "mixed", Window: "start", Fmt: f, Zero: true})
 	}
 	// every fertiliser type of the table, alone, on day 3
 	out = append(out, c10Spec{What: "fert-types", Window: "start", Fmt: "DateDElong", Factor: 100}, c10Spec{What: "fert-types", Window: "start", Fmt: "DateENshort", Factor: 70})
@@ -292,6 +298,9 @@ func c10RunSchedule(c *mc.Ctx, sp c10Spec, what string, fert, till, irr []c10Ev,
 	factor := sp.Factor
 	if factor == 0 {
 		factor = 100
+	}
+	if sp.Zero {
+		factor = 0
 	}
 	b := e1Base{Soil: "loam12", GW: 99, InitW: 0.6, InitN: 20, ET: 3}
 	p := e1Project(b, c10Len)
